@@ -67,7 +67,7 @@ func (w *c15Writer) Write(p []byte) (int, error) {
 
 func (w *c15Writer) reset() { w.n = 0 }
 
-var c15W = &c15Writer{runs: make([][2]int, 1<<17)}
+var c15W = &c15Writer{runs: make([][2]int, 1<<19)}
 
 // ---- abstract argument <-> Go value
 
@@ -343,7 +343,24 @@ func (w *c15Worker) run(kind, shape string, seed int, fbytes []byte, args []inte
 
 func (w *c15Worker) runCase(kind string, fbytes []byte, args []interface{}) {
 	format := string(fbytes)
+	if kind == "printf" { // the same case through kfmt.Printf with the recording writer as the output sink
+		w.run(kind, "", 0, fbytes, args, func() bool { return c15CallPrintf(format, args) })
+		return
+	}
 	w.run(kind, "", 0, fbytes, args, func() bool { return c15Call(format, args) })
+}
+
+func c15CallPrintf(format string, args []interface{}) (panicked bool) {
+	defer func() {
+		outputSink = nil
+		if r := recover(); r != nil {
+			panicked = true
+		}
+	}()
+	c15W.reset()
+	outputSink = c15W
+	Printf(format, args...)
+	return false
 }
 
 // c15Parent runs the named test as worker processes until every case has an event; a child that
@@ -518,17 +535,45 @@ func c15RandStr(rng *rand.Rand) interface{} {
 	if rng.Intn(2) == 0 {
 		return string(b)
 	}
+	if n == 0 && rng.Intn(2) == 0 {
+		return []byte(nil)
+	}
 	return b
 }
 
+type c15Named struct{ a, b int }
+
+func (c15Named) String() string { return "named" }
+func (c15Named) Error() string  { return "named" }
+
 func c15RandOther(rng *rand.Rand) interface{} {
-	switch rng.Intn(4) {
+	switch rng.Intn(14) {
 	case 0:
 		return 3.5
 	case 1:
 		return nil
 	case 2:
 		return &c15Arg{}
+	case 3:
+		return float32(1.5)
+	case 4:
+		return complex(1, 2)
+	case 5:
+		return []int{1, 2}
+	case 6:
+		return [4]byte{1, 2, 3, 4}
+	case 7:
+		return map[string]int{}
+	case 8:
+		return func() {}
+	case 9:
+		return c15Named{1, 2} // a Stringer / error: the formatter must not look for methods
+	case 10:
+		return &c15Named{}
+	case 11:
+		return []string{"a"}
+	case 12:
+		return make(chan int)
 	}
 	return c15Other{2}
 }
@@ -546,10 +591,15 @@ func c15RandAny(rng *rand.Rand) interface{} {
 }
 
 // c15Structured: literal text, %% and verbs with optional width; arguments mostly matching.
-func c15Structured(rng *rand.Rand, big *int) ([]byte, []interface{}) {
+func c15Structured(rng *rand.Rand, big, long *int) ([]byte, []interface{}) {
 	var f []byte
 	var args []interface{}
-	for k := rng.Intn(7); k >= 0; k-- {
+	pieces := rng.Intn(7)
+	if rng.Intn(60) == 0 && *long > 0 {
+		*long--
+		pieces = 100 + rng.Intn(300) // a long format string with a long argument list
+	}
+	for k := pieces; k >= 0; k-- {
 		switch r := rng.Intn(10); {
 		case r < 3:
 			for n := 1 + rng.Intn(6); n > 0; n-- {
@@ -616,8 +666,16 @@ func c15Structured(rng *rand.Rand, big *int) ([]byte, []interface{}) {
 }
 
 // c15Arbitrary: any byte string (digit runs capped so that a width cannot reach 10^7) and any arguments.
-func c15Arbitrary(rng *rand.Rand) ([]byte, []interface{}) {
+func c15Arbitrary(rng *rand.Rand, long *int) ([]byte, []interface{}) {
 	n := rng.Intn(24)
+	if rng.Intn(40) == 0 && *long > 0 {
+		*long--
+		n = 200 + rng.Intn(3000)
+	}
+	// A digit run is a width of any size (it overflows an int beyond 19 digits).  Only a string or byte-slice
+	// argument can turn a width into that many writes, so unbounded digit runs are drawn together with
+	// argument lists that hold no string / []byte; otherwise a run is capped at 5 digits.
+	wild := rng.Intn(3) == 0
 	f := make([]byte, 0, n)
 	digits := 0
 	for i := 0; i < n; i++ {
@@ -634,9 +692,16 @@ func c15Arbitrary(rng *rand.Rand) ([]byte, []interface{}) {
 		default:
 			c = byte(rng.Intn(256))
 		}
+		if wild && c == '%' && rng.Intn(3) == 0 { // % followed by a long width
+			f = append(f, '%')
+			for k := 6 + rng.Intn(20); k > 0 && len(f) < n+40; k-- {
+				f = append(f, byte('0'+rng.Intn(10)))
+			}
+			continue
+		}
 		if c >= '0' && c <= '9' {
 			digits++
-			if digits > 5 {
+			if !wild && digits > 5 {
 				c = '_'
 				digits = 0
 			}
@@ -646,8 +711,15 @@ func c15Arbitrary(rng *rand.Rand) ([]byte, []interface{}) {
 		f = append(f, c)
 	}
 	var args []interface{}
-	for k := rng.Intn(5); k > 0; k-- {
-		args = append(args, c15RandAny(rng))
+	for k := rng.Intn(5 + n/40); k > 0; k-- {
+		a := c15RandAny(rng)
+		if wild {
+			switch a.(type) {
+			case string, []byte:
+				a = c15RandInt(rng)
+			}
+		}
+		args = append(args, a)
 	}
 	return f, args
 }
@@ -665,16 +737,27 @@ func TestVerifC15Random(t *testing.T) {
 	rng := rand.New(rand.NewSource(seed*7919 + 15))
 	w := c15NewWorker(t)
 	defer w.done()
-	big := 2 + n/1500 // how many 10^5..10^6-wide %s paddings the whole run may contain
+	big := 2 + n/1500  // how many 10^5..10^6-wide %s paddings the whole run may contain
+	long := 3 + n/1000 // how many kilobyte-long format strings (they are slow to judge)
 	for i := 0; i < n; i++ {
 		if rng.Intn(10) < 3 {
-			f, a := c15Arbitrary(rng)
+			f, a := c15Arbitrary(rng, &long)
 			w.runCase("any", f, a)
 		} else {
-			f, a := c15Structured(rng, &big)
-			w.runCase("fmt", f, a)
+			f, a := c15Structured(rng, &big, &long)
+			if rng.Intn(8) == 0 {
+				w.runCase("printf", f, a)
+			} else {
+				w.runCase("fmt", f, a)
+			}
 		}
 	}
+	// strings and byte slices of "any length": a megabyte goes through the formatter one byte at a time
+	hugeS := string(c15Repeat(byte('a'+rng.Intn(26)), 999990+rng.Intn(10)))
+	hugeB := c15Repeat(byte('A'+rng.Intn(26)), 300000+rng.Intn(1000))
+	w.runCase("fmt", []byte("<%s>"), []interface{}{hugeS})
+	w.runCase("fmt", []byte("%1000000s|%5s"), []interface{}{hugeS, hugeB})
+	w.runCase("fmt", []byte("%d%300500s"), []interface{}{int16(-7), hugeB})
 	for _, sh := range c15Shapes {
 		for k := 0; k < 3; k++ {
 			w.runShape(sh, byte(rng.Intn(200)))
@@ -703,6 +786,14 @@ func c15Fill(b []byte, seed byte) {
 	for i := range b {
 		b[i] = 'A' + (seed+byte(i))%26
 	}
+}
+
+func c15Repeat(c byte, n int) []byte {
+	b := make([]byte, n)
+	for i := range b {
+		b[i] = c
+	}
+	return b
 }
 
 func c15Filled(n int, seed byte) []byte { b := make([]byte, n); c15Fill(b, seed); return b }
